@@ -27,7 +27,7 @@ def run(rep, tier):
         targets.append(f"{parts}.check_vars_{v}")
     twin = [f"{MOD}.twin_two_yields_then_error", f"{MOD}.check_ws_history"]
     MODM = "harness.C13_method"
-    twin += [f"{MODM}.check_generated_subscription_snake", f"{MODM}.check_generated_subscription_plain", f"{MODM}.twin_generated_clash_two_payloads"]
+    twin += [f"{MODM}.check_generated_subscription_snake", f"{MODM}.check_generated_subscription_plain", f"{MODM}.twin_generated_clash_two_payloads", f"{MODM}.check_real_server_handshake"]
     t = 300 if tier == "quick" else 2400
     res = xh.run_targets(targets + twin, timeout=t, env_extra={"VERIF_WS_FRAMES": str(nmax)})
     xh.fold(rep, parts, [r for r in res if r.target.startswith(parts)])
@@ -45,7 +45,7 @@ def run(rep, tier):
     rep.assume("frame handling is explored with variables=None/no init payload; variable serialisation and init payload are explored with a fixed frame sequence (independence of the two is assumed)",
                "websockets library replaced by an in-memory fake connection (recv / async iteration / close)",
                "history: two subscriptions on one client (extra_headers on the first / second / both) must open connections with exactly their own headers and leave the configured ws_headers untouched",
-               "the handshake against a real websockets server is NOT covered (DESIGN section 8)",
+               "the handshake clause is exercised against a real websockets server (installed version) on the loopback interface, plain and OpenTelemetry client, with and without configured headers; where no loopback socket can be bound the path passes without a verdict",
                "generated subscription methods (snake on/off; variables named query/variables/operationName/data/response, an input model): execute_ws stubbed, the kwargs it receives and the yielded models are judged",
                "OpenTelemetry tracer replaced by a no-op stub")
 
